@@ -216,3 +216,81 @@ def stitch_expected(dec, bid):
                 break
         n = nxt
     return out
+
+
+# --------------------------------------------------------------------------------------
+# Random histories
+
+def rand_history(rng, nsteps, crashes=True, deletes=True):
+    """Return (steps, marks): harness steps, and marks[i] = dict describing step i
+    ('kind': src|backup|delete|arch|..., plus bookkeeping)."""
+    steps = [{"op": "init"}]
+    marks = [{"kind": "init"}]
+    tree = small_tree(rng)
+    pool = []
+
+    def set_source(t):
+        steps.extend([{"op": "mktree", "path": "src", "tree": t}, {"op": "snap", "path": "src"}, {"op": "walk"}])
+        marks.extend([{"kind": "mktree", "tree": t}, {"kind": "snap"}, {"kind": "walk"}])
+
+    set_source(tree)
+    nb = 0
+    last_crashed = False
+    for _ in range(nsteps):
+        r = rng.random()
+        if r < 0.35 or nb == 0:
+            if rng.random() < 0.8:
+                tree, _ = gen.mutate_tree(rng, tree, pool)
+            set_source(tree)
+            plan = None
+            if crashes and rng.random() < 0.3:
+                plan = {rng.choice(["crash", "crash", "crash_empty"]): rng.randrange(3, 70)}
+            st = {"op": "backup", "opts": small_opts(rng)}
+            if plan:
+                st["plan"] = plan
+            steps.append(st)
+            marks.append({"kind": "backup", "plan": plan, "tree": tree, "snap_at": len(steps) - 3})
+            nb += 1
+            last_crashed = plan is not None
+        elif r < 0.55 and deletes and nb > 0:
+            ids = sorted(rng.sample(range(nb), rng.randrange(0, min(nb, 3) + 1)))
+            st = {"op": "delete", "bands": ids, "dry": rng.random() < 0.2}
+            steps.append(st)
+            marks.append({"kind": "delete", "ids": ids, "dry": st["dry"]})
+        elif r < 0.7:
+            tree, _ = gen.mutate_tree(rng, tree, pool)
+            set_source(tree)
+            continue
+        else:
+            steps.append({"op": "validate", "skip": rng.random() < 0.5})
+            marks.append({"kind": "validate"})
+        steps.append({"op": "arch"})
+        marks.append({"kind": "arch"})
+    return steps, marks
+
+
+def add_model_history(h, steps, marks, results, names, from_index=0):
+    """Feed the executed steps of a history into an l4.History (crashed backups by index)."""
+    for i in range(from_index, len(steps)):
+        st, mk, rs = steps[i], marks[i], results[i]
+        if mk["kind"] == "backup" and mk.get("plan"):
+            plan = mk["plan"]
+            k = plan.get("crash", plan.get("crash_empty"))
+            if rs.get("crashed"):
+                h.add(st, rs, mode=1, crash=(k, "crash_empty" in plan))
+            else:
+                h.add(st, rs)          # the crash index lay beyond the end of the run
+        elif mk["kind"] in ("snap",):
+            continue
+        else:
+            h.add(st, rs)
+
+
+def collect_names(names, steps, results):
+    for st, rs in zip(steps, results):
+        if not isinstance(rs, dict):
+            continue
+        if "arch" in rs:
+            names.add_arch(rs["arch"])
+        if "trace" in rs:
+            names.add_trace(rs["trace"])
